@@ -2,6 +2,7 @@ package gateway
 
 import (
 	hydrapb "github.com/hydraide/hydraide/sdk/go/hydraidego/v3/hydraidepbgo"
+	"strings"
 )
 
 // PlanMode is the execution strategy chosen by PlanFilter for a single
@@ -147,6 +148,12 @@ func indexableHint(f *hydrapb.TreasureFilter) (BucketHint, bool) {
 	}
 	path := f.GetBytesFieldPath()
 	if path == "" {
+		return BucketHint{}, false
+	}
+	// A bucket indexes plain dotted paths only. The wildcard and the length
+	// pseudo-field are resolved by the filter evaluator alone, so such a leg
+	// has no candidates in the bucket and must take the full scan.
+	if strings.Contains(path, "[*]") || strings.Contains(path, "#len") {
 		return BucketHint{}, false
 	}
 	switch f.GetOperator() {
